@@ -1,7 +1,7 @@
 (* C02 -- validating entry points accept exactly the well-formed JSON texts.
    Statements only; proofs live in Model/. *)
 From Coq Require Import List NArith Arith.
-From SonicV Require Import Model.SkipStr Model.SkipNum Model.Skip Model.SkipAll.
+From SonicV Require Import Spec.Ref Model.SkipStr Model.SkipNum Model.Skip Model.SkipAll Model.RefSound.
 Import ListNotations.
 Open Scope N_scope.
 
@@ -31,3 +31,9 @@ Proof. exact skip_num_complete. Qed.
    why the strict skipper is the model *)
 Theorem unrepaired_string_skip_refuted : exists body rest, skip_str false 100 (body ++ 34 :: rest) = Some rest /\ ~ str_body body.
 Proof. exact skip_sound_refuted. Qed.
+
+(* the executable reference every acceptance answer is compared with (Spec/Ref.v: ref_text, strict or
+   not) accepts only whitespace + one RFC 8259 value + whitespace, and reports its exact extent *)
+Theorem reference_accepts_only_wf : forall strict l v a b, ref_text strict l = Some (v, a, b) ->
+  exists w1 tok w2, l = w1 ++ tok ++ w2 /\ all_ws w1 /\ Value tok /\ all_ws w2 /\ a = length w1 /\ b = (a + length tok)%nat.
+Proof. exact ref_text_sound. Qed.
